@@ -63,6 +63,35 @@ dc_hash_stub3(uint16_t *t, uint32_t m, uint32_t c, uint8_t *d, uint32_t l)
 }
 #endif
 
+/* ---- range-recording memcpy (DESIGN 3.3), CBMC only: payload copies of up to 64 KiB are not
+ * performed, only recorded, after asserting that both ranges lie inside their objects. Under
+ * native replay the real memcpy runs and the harnesses compare the bytes instead. ---- */
+#if defined(DC_STUB_MEMCPY) && !defined(REPLAY) /* goto-cc does not define __CPROVER__; REPLAY marks the native build */
+#define DC_MEMCPY_STUBBED 1
+struct dc_cpy {
+        void *dst;
+        const void *src;
+        size_t n;
+};
+static struct dc_cpy dc_cpys[3];
+static int dc_ncpy;
+void *
+memcpy(void *dst, const void *src, size_t n)
+{
+        __CPROVER_assert(n == 0 || __CPROVER_r_ok(src, n), "memcpy source range readable");
+        __CPROVER_assert(n == 0 || __CPROVER_w_ok(dst, n), "memcpy destination range writable");
+        if (dc_ncpy < 3) {
+                dc_cpys[dc_ncpy].dst = dst;
+                dc_cpys[dc_ncpy].src = src;
+                dc_cpys[dc_ncpy].n = n;
+        }
+        dc_ncpy++;
+        return dst;
+}
+#else
+#define DC_MEMCPY_STUBBED 0
+#endif
+
 /* ---- every scalar of isal_zstream / isal_zstate, arbitrary ---- */
 struct dc_scalars {
         uint32_t avail_in, total_in, avail_out, total_out, level, level_buf_size;
@@ -73,17 +102,20 @@ struct dc_scalars {
         uint8_t has_wrap_hdr, has_eob_hdr, has_eob, has_hist;
         uint16_t has_level_buf_init;
         uint32_t count, tmp_out_start, tmp_out_end, b_bytes_valid, b_bytes_processed;
-        uint8_t fill_tmp, fill_buf; /* arbitrary fill of tmp_out_buff[] / buffer[] */
-        uint8_t fill_head;          /* arbitrary byte fill of head[] */
+        uint8_t fill_tmp, fill_buf; /* arbitrary fill of tmp_out_buff[] / value of buffer[bi] */
+        uint16_t fill_head;         /* arbitrary value of head[hi] */
         uint8_t level_buf_null;     /* level_buf == NULL ? */
 };
 
 static uint8_t dc_in_obj[16], dc_out_obj[16], dc_bb_obj[32];
 static struct isal_hufftables dc_custom_tables;
-static uint8_t dc_level_buf[ISAL_DEF_LVL3_DEFAULT];
+#ifndef DC_LEVEL_BUF_SIZE
+#define DC_LEVEL_BUF_SIZE ISAL_DEF_LVL3_MIN
+#endif
+static uint8_t dc_level_buf[DC_LEVEL_BUF_SIZE];
 
 static void
-dc_fill(struct isal_zstream *s, const struct dc_scalars *v)
+dc_fill(struct isal_zstream *s, const struct dc_scalars *v, uint32_t bi, uint32_t hi)
 {
         struct isal_zstate *st = &s->internal_state;
         s->next_in = dc_in_obj;
@@ -124,8 +156,13 @@ dc_fill(struct isal_zstream *s, const struct dc_scalars *v)
         st->tmp_out_end = v->tmp_out_end;
         st->b_bytes_valid = v->b_bytes_valid;
         st->b_bytes_processed = v->b_bytes_processed;
-        memset(st->buffer, v->fill_buf, sizeof(st->buffer));
-        memset(st->head, v->fill_head, sizeof(st->head));
+        /* buffer[] / head[]: the stream object is a zero-initialised static; one ARBITRARY element of each
+         * array gets an ARBITRARY value (the same index the snapshot later observes), so a write of any
+         * value at any index is visible to some (index, value) choice.  (Measured: memset with a symbolic
+         * byte, __CPROVER_havoc_slice or a nondet local all make CBMC bit-blast the 64 KiB member
+         * arrays: 2.4-5.7 M variables, no verdict.) */
+        st->buffer[bi % sizeof(st->buffer)] = v->fill_buf;
+        st->head[hi % IGZIP_LVL0_HASH_SIZE] = v->fill_head;
 }
 
 /* Snapshot of every scalar/pointer field of the stream, of tmp_out_buff[], and of buffer[] / head[]
